@@ -454,6 +454,10 @@ type Options struct {
 	NoClientReader bool
 	ProxyToServerCap int // capacity (bytes) of the relay->server direction, 0 = unbounded
 	ProxyToClientCap int
+	// ServerReaderGate / ClientReaderGate: the endpoint's read loop starts only when the gate is opened
+	// (a receiver that stalls for a while and then resumes).
+	ServerReaderGate *vrt.Gate
+	ClientReaderGate *vrt.Gate
 }
 
 // New creates the world and starts the relay (Config.Proxy) in its own thread.
@@ -466,7 +470,12 @@ func New(o Options) *World {
 	w.ClientProxy = px
 	w.Client = newEndpoint("client", cl)
 	if !o.NoClientReader {
-		vrt.GoNamed("client-reader", w.Client.ReadLoop)
+		vrt.GoNamed("client-reader", func() {
+			if o.ClientReaderGate != nil {
+				o.ClientReaderGate.Wait()
+			}
+			w.Client.ReadLoop()
+		})
 	}
 	vtls.DialHook = func(network, addr string, cfg *vtls.Config) (net.Conn, error) {
 		w.Dials++
@@ -479,7 +488,12 @@ func New(o Options) *World {
 		w.Server = newEndpoint("server", s)
 		w.Server.ExpectPreface = true
 		if !o.NoServerReader {
-			vrt.GoNamed("server-reader", w.Server.ReadLoop)
+			vrt.GoNamed("server-reader", func() {
+				if o.ServerReaderGate != nil {
+					o.ServerReaderGate.Wait()
+				}
+				w.Server.ReadLoop()
+			})
 		}
 		return p, nil
 	}
